@@ -278,7 +278,17 @@ def refute_and_replay(o, frb, K, pid):
     s.add(*inst)
     s.add(*[f for _, f in solve.ghost_axiom_instances(fs)])
     s.add(*fs)
-    if s.check() != z3.sat:
+    import threading
+    wd = threading.Timer(25.0, z3.main_ctx().interrupt)
+    wd.daemon = True
+    wd.start()
+    try:
+        chk = s.check()
+    except z3.Z3Exception:
+        chk = z3.unknown
+    finally:
+        wd.cancel()
+    if chk != z3.sat:
         return None
     m = s.model()
     out = {'replayed': False, 'bound_K': K, 'path': o.info.get('trace'), 'solver': 'z3 %s (refutation mode: integer-range '
